@@ -39,6 +39,18 @@ PROPS["C09"] = {
     "level_note": LEVEL_NOTE_GBN,
 }
 
+PROPS["C10"] = {
+    "pkgs": ["gbn"],
+    "level": "exploration",
+    "quick_budget": 50, "thorough_budget": 1500,
+    "rule": "hs-random: real NewClientConn/NewServerConn inside application retry loops (as grpc provides), tape-chosen start order incl. a late server, random drop/dup/delay of every packet during a fault prefix of 1..20 virtual seconds, 0..5 stale packets of every type (SYN with same/other N, SYNACK, ACK, NACK, DATA, PING, FIN) pre-queued per direction, N from 1..254; hs-patterns: complete enumeration of drop/duplicate/delay-past-timeout on each of the first six handshake packets, all singles and all pairs, both start orders. Safety oracle at every successful constructor return (server window is one a delivered SYN proposed, representable, and equals the client's when data flows); progress oracle at a bound after the last fault." + SIG_RULE,
+    "assumptions": ["progress bound = last fault + 120 x handshake timeout + 4 x (ping+pong) + 5 virtual minutes; the defects it is meant to catch are unbounded", "stale SYNs model an earlier connection of the same session and may carry another N"],
+    "components": GBN_COMPONENTS,
+    "expected_probes": ["c10.attempt-failed-with-error", "c10.reconnected"],
+    "level_text": EXPL_TEXT + " The handshake-pattern sub-batch enumerates its finite fault set completely.",
+    "level_note": LEVEL_NOTE_GBN,
+}
+
 # Properties that are pure functions of their input: no schedule, clock, fault
 # or interleaving enters them, so deterministic simulation has nothing to decide.
 NOT_APPLICABLE = {
